@@ -264,7 +264,49 @@ func run(e *core.Env) {
 	faults := 0
 	for s := 0; s < nSteps; s++ {
 		e.Step()
-		switch tp.Pick(6, 6, 5) {
+		switch tp.Pick(6, 6, 5, 1) {
+		case 3:
+			// A stranger connects to one of the routers and, instead of a handshake, sends a few
+			// complete records that do not parse as frames (right version byte, lengths that do
+			// not add up, or noise), then hangs up. Whatever the router does with the buffers
+			// of refused records, the frames of the established link stay what they are.
+			v := tp.Intn(2)
+			sp := cn.NewPair(fmt.Sprintf("stranger>%s", S[v].Node.Name))
+			if S[v].Listener.Offer(sp.B) {
+				simnet.Wait()
+				for k, n := 0, 1+tp.Intn(3); k < n; k++ {
+					body := tp.Bytes(68 + tp.Intn(400))
+					body[0] = 1
+					if tp.Chance(2, 3) {
+						// a genuine frame whose inner lengths were changed
+						if f, err := S[1-v].Node.Inst.Builder.NewFrameV1(S[1-v].Node.IP, S[v].Node.IP, frame.RouterPing, nil, tp.Bytes(20+tp.Intn(300)), nil); err == nil {
+							d, _ := f.FrameDataWithMargins(0, 0)
+							body = append([]byte(nil), d...)
+							f.ReturnToPool()
+							if tp.Chance(1, 2) {
+								m.PutUint16(body[49:51], uint16(len(body)+tp.Intn(2000))) // message longer than the frame
+							} else {
+								body[48] = byte(200 + tp.Intn(56)) // switch block longer than the frame
+							}
+						}
+					}
+					rec := make([]byte, 2+len(body))
+					m.PutUint16(rec[:2], uint16(len(rec)))
+					copy(rec[2:], body)
+					cn.DeliverBytes(sp.B, rec, false)
+				}
+				_ = sp.A.Close()
+				_ = sp.B.Close()
+				simnet.Wait()
+				for _, r := range cn.Pending() {
+					if r.Conn == sp {
+						cn.Remove(r)
+					}
+				}
+				faults++
+				e.Fault("inject")
+				e.Probe("stranger_sends_unparsable_records_to_the_listener")
+			}
 		case 0:
 			size := 1 + tp.Intn(300)
 			switch tp.Intn(6) {
